@@ -40,7 +40,7 @@ func c20(e *Env) {
 		}
 	}
 	e.versionTables()
-	e.tableImmutability("table-immutability")
+	e.tableImmutability("table-immutability", "v3/metric", "v2/metric", "v3/version")
 	c.Analysed["metric_fields"] = nf
 	c.Analysed["tables"] = len(e.F.AllTabs)
 	for _, p := range e.F.Problems {
